@@ -18,6 +18,18 @@ CHECKS = {
  "C11": ("exploration", "lock-step differential run of generated operation sequences against a sorted-map reference, per engine and behind the metrics wrapper", "5 C11",
    "Held on generated batch/get/delete/iterate sequences on memkv, Badger and the TiKV mock, each also behind the production metrics wrapper with the real Prometheus client: all-or-nothing batches, conditions evaluated exactly and reported as failed conditions, iterators bounded, ordered and snapshot-consistent.",
    "only the documented contract of pkg/storage/interface.go is demanded; TTL always 0; ops of one batch touch distinct keys"),
+ "C08": ("exploration", "monitor over generated compaction/read sequences: floor=max(accepted), stored record and refusal of reads below it", "5 C08",
+   "Held on generated sequences of compaction requests (increasing, repeated, older, zero, above current) interleaved with writes: the stored record never dropped below the highest accepted revision and every List/ListByStream below it was refused; reads at/above it equal the reference snapshot.",
+   "only compactions that returned without error raise the monitor's floor"),
+ "C10": ("exploration", "generated inputs with round-trip/order oracles on the real coder, real memkv iteration and Backend.List", "5 C10",
+   "Held on generated keys/revisions/bounds over the documented alphabet: round trip, order preservation, index-first contiguity, exact enclosure of raw ranges and prefixes by the computed internal bounds.",
+   "alphabet = bytes > '$'; PrefixEnd's documented no-successor sentinel (empty / all-0xff prefix) is excluded as a bound"),
+ "C12": ("exploration", "lock-step differential execution of one request script on all engines, transcript equality", "5 C12",
+   "Held on generated sequential scripts executed in lock-step on memkv, Badger, TiKV mock and their metrics-wrapped variants: identical outcomes, revisions, range results, compaction answers and watch events.",
+   "error texts are not compared, only error vs response; TiKV is the in-process mock"),
+ "C13": ("exploration", "controlled partitioning (GetPartitions override / pre-split mock regions) with differential comparison against the unpartitioned reference snapshot and stream-framing monitor", "5 C13",
+   "Held on generated histories under generated partitionings (borders on index records, inside one key's versions, at never-stored keys, shuffled): List, Count, whole-interval stream, per-advertised-partition streams and the etcd range stream each contain every qualifying key once with the right version; batches name the read revision; one terminator, last.",
+   "borders are the forms an engine splitting at existing keys can produce; TiKV regions are those of the mock cluster"),
 }
 def cmd(p, tier): return "./bin/kbcheck %s --tier %s" % (p, tier)
 hooks = subprocess.run(["git","-C","/repo","log","--format=%H %s"],capture_output=True,text=True).stdout.splitlines()
